@@ -405,3 +405,65 @@ pub fn gen_views(rng: &mut Rng, thorough: bool) -> Vec<String> {
     ops.push("dump-root".into());
     ops
 }
+
+// ------------------------------------------------------------------------------------------------
+// C06: exhaustive small scope — every sequence of five mutators over a 13-symbol alphabet
+// (3 keys that are prefixes of each other incl. the empty key × 2 values, removes, push / commit /
+// discard, no-op), each followed by the full observation block (all gets, all 4×4 bound pairs in
+// both orders, base range, root dump) and by closing every open level.
+
+pub const EXH_SYMBOLS: u64 = 13;
+pub const EXH_LEN: u32 = 5;
+
+pub fn gen_overlay_exh(index: u64) -> Vec<String> {
+    let keys = ["-", "61", "6100"];
+    let mut ops = vec!["set 61 09".to_string()]; // a base entry, so that deletes and overwrites of base keys occur
+    let mut depth = 0usize;
+    let mut idx = index;
+    for _ in 0..EXH_LEN {
+        let sym = idx % EXH_SYMBOLS;
+        idx /= EXH_SYMBOLS;
+        match sym {
+            0..=5 => ops.push(format!("set {} {}", keys[(sym / 2) as usize], if sym % 2 == 0 { "01" } else { "02" })),
+            6..=8 => ops.push(format!("remove {}", keys[(sym - 6) as usize])),
+            9 => {
+                ops.push("push".into());
+                depth += 1;
+            }
+            10 => {
+                if depth > 0 {
+                    ops.push("commit".into());
+                    depth -= 1;
+                }
+            }
+            11 => {
+                if depth > 0 {
+                    ops.push("discard".into());
+                    depth -= 1;
+                }
+            }
+            _ => {}
+        }
+    }
+    for k in keys {
+        ops.push(format!("get {}", k));
+    }
+    let bounds = ["~", "00", "61", "6100"];
+    for s in bounds {
+        for e in bounds {
+            ops.push(format!("range {} {} asc", s, e));
+            ops.push(format!("range {} {} desc", s, e));
+        }
+    }
+    if depth > 0 {
+        ops.push("base-range ~ ~ asc".into());
+    }
+    ops.push("dump-root".into());
+    while depth > 0 {
+        ops.push("commit".into());
+        depth -= 1;
+        ops.push("range ~ ~ asc".into());
+    }
+    ops.push("dump-root".into());
+    ops
+}
